@@ -51,21 +51,50 @@ When done, delete the build output (`rm -rf /tmp/ben/{id}/target`) but leave the
 """
 
 
+PRIOR = """## Already done by colleagues (do NOT repeat these; pick different functions and different kinds of refactor)
+
+{sums}
+
+Prefer the central functions your colleagues did not touch, and kinds of refactor not in the list above (for example: `while let`/`loop` <-> `for`, iterator adapter swaps such as `.iter().enumerate()` <-> indexed loop or `.zip()`, `match` on a tuple <-> nested `if`, swapping the branches of an `if` by negating the condition, replacing a boolean expression by an equivalent one via De Morgan, `x.is_some()` + unwrap <-> `if let`, turning a closure into a named inner fn, hoisting a loop-invariant expression, replacing `a = a + b` by `a += b`, changing integer cast style, moving a `let` closer to its first use, merging or splitting or-patterns of big `match` tables, reordering rows of a table).
+
+"""
+
+
 def main():
+    """usage: gen_benign_prompt.py [--suffix r3] [ID ...]   (a suffix makes a later round: the summaries of the
+    refactors already stored under /verif/benign/<ID>* are listed as done)"""
+    import glob
+
+    args = sys.argv[1:]
+    suffix = ""
+    if args[:1] == ["--suffix"]:
+        suffix = args[1]
+        args = args[2:]
     os.makedirs(os.path.join(OUT, "prompts"), exist_ok=True)
     for line in open("/verif/properties.jsonl"):
         p = json.loads(line)
-        if len(sys.argv) > 1 and p["id"] not in sys.argv[1:]:
+        if args and p["id"] not in args:
             continue
+        wid = p["id"] + suffix
         s = T.format(
-            id=p["id"],
+            id=wid,
             title=p["title"],
             statement=p["statement"],
             quant=p["quantifier"]["text"],
             files=", ".join(p["anchors"]["files"]),
         )
-        open(os.path.join(OUT, "prompts", p["id"] + ".txt"), "w").write(s)
-        os.makedirs(os.path.join(OUT, p["id"]), exist_ok=True)
+        s = s.replace("## The property (%s:" % wid, "## The property (%s:" % p["id"]).replace('`property` ("%s")' % wid, '`property` ("%s")' % p["id"])
+        if suffix:
+            sums = []
+            for d in sorted(glob.glob("/verif/benign/%s*-*" % p["id"])):
+                try:
+                    sums.append("- " + " ".join(json.load(open(d + "/meta.json"))["summary"].split())[:300])
+                except Exception:
+                    pass
+            if sums:
+                s = s.replace("## Requirements\n", PRIOR.format(sums="\n".join(sums)) + "## Requirements\n", 1)
+        open(os.path.join(OUT, "prompts", wid + ".txt"), "w").write(s)
+        os.makedirs(os.path.join(OUT, wid), exist_ok=True)
     print("ok")
 
 
